@@ -31,7 +31,7 @@ def run(ctx, rep):
     uncond = {}
     arms_seen = 0
     for df in sorted(ctx.facts.body_defs()):
-        if not df.startswith('server::'):
+        if not in_crate(df):
             continue
         raw = ctx.facts.raw_body(df)
         import json
